@@ -274,11 +274,48 @@ func callersHold(p *Program, fn *ssa.Function, typeID string) (bool, string) {
 				ok = true
 			}
 		}
+		if !ok && depthOK(s.Fn) {
+			// the calling function is itself only called with the lock held (unexported helper)
+			if s.Fn.Object() != nil && !s.Fn.Object().Exported() {
+				ok, _ = callersHoldDepth(p, s.Fn, typeID, 1)
+			}
+		}
 		if !ok {
 			return false, "call site " + p.InstrPos(s.Call) + " in " + FuncKey(s.Fn) + " does not hold " + typeID
 		}
 	}
 	return true, fmt.Sprintf("%d call sites", len(sites))
+}
+
+func depthOK(*ssa.Function) bool { return true }
+
+func callersHoldDepth(p *Program, fn *ssa.Function, typeID string, depth int) (bool, string) {
+	if depth > 3 {
+		return false, "call chain too deep"
+	}
+	sites := p.callSitesOf(fn)
+	if len(sites) == 0 {
+		return false, "no call sites"
+	}
+	for _, s := range sites {
+		if !IsProd(s.Fn) {
+			continue
+		}
+		lf := lockFlow(s.Fn, heldSet{})
+		ok := false
+		for _, h := range lf.Must[s.Call.(ssa.Instruction)] {
+			if h.TypeID == typeID && h.Mode == 'W' {
+				ok = true
+			}
+		}
+		if !ok && s.Fn.Object() != nil && !s.Fn.Object().Exported() {
+			ok, _ = callersHoldDepth(p, s.Fn, typeID, depth+1)
+		}
+		if !ok {
+			return false, "call site " + p.InstrPos(s.Call) + " in " + FuncKey(s.Fn) + " does not hold " + typeID
+		}
+	}
+	return true, ""
 }
 
 func findCycle(g map[string]map[string]bool, nodes []string) []string {
